@@ -17,7 +17,7 @@ RULE = ("all loop-free multigraphs (edge multiplicity <= 2, <= 7 edges) on <= 4 
         "BoolArray1D; one evaluation = one solve vs the definition; distinct by (graph, subset, form)")
 ASSUMPTIONS = ["z3 decides the posted aux-variable program correctly (SAT answers re-validated by M-SOLVE)"]
 REQUIRED = ["acyc.pointwise", "acyc.oracle.valid", "acyc.oracle.invalid", "acyc.parallel_edges", "acyc.accepted_set_solves",
-            "acyc.form.expr", "acyc.random", "msolve.model_checked", "acyc.long_paths", "acyc.deep_spanning_trees"]
+            "acyc.form.expr", "acyc.random", "msolve.model_checked", "acyc.long_paths", "acyc.deep_spanning_trees", "acyc.line_graph_objects"]
 
 
 def plan(tier):
@@ -134,6 +134,21 @@ def run(ctx):
                         lambda p, n=n, edges=edges: G.is_forest(n, edges, p), [tp, tuple(plus)], forms=("var",),
                         desc={"grid_graph": [h, w], "n": n, "edges": [list(e) for e in edges]}, rng=rng)
         ctx.count("acyc.deep_spanning_trees")
+    # Graph objects produced by Graph.line_graph() (loop-free; all edge subsets)
+    for k in range(4 if not thorough else 60):
+        r = D.line_graph_object(rng, nmax=4)
+        if r is None:
+            ctx.count("acyc.line_graph_object_disagrees")
+            continue
+        g, n, edges = r
+        m = len(edges)
+        if m == 0 or m > 8:
+            continue
+        with ctx.guard(300):
+            D.pointwise(ctx, "acyc", m, lambda s, act, g=g: graph.active_edges_acyclic(s, act, g),
+                        lambda p, n=n, edges=edges: G.is_forest(n, edges, p), D.all_patterns(m) if m <= 5 else rng.sample(list(D.all_patterns(m)), 32),
+                        forms=("var",), desc={"n": n, "edges": [list(e) for e in edges], "from_line_graph": True}, rng=rng)
+        ctx.count("acyc.line_graph_objects")
     msolve.uninstall()
 
 
